@@ -196,11 +196,19 @@ impl Mac {
         }?;
         let (mut tx_config, tx_channel) =
             self.region.create_tx_config(rng, self.configuration.data_rate, &Frame::Data);
-        tx_config.adjust_power(
-            self.configuration.tx_power.unwrap_or(self.board_eirp.max_power),
-            self.board_eirp.antenna_gain,
-        );
+        self.adjust_data_power(&mut tx_config);
         Ok((tx_config, self.rx_windows(&tx_channel), fcnt))
+    }
+
+    /// Conducted power of a data uplink: what the board and the region allow, lowered further to
+    /// the EIRP the network commanded (less the antenna gain). A commanded level never raises the
+    /// power above the radio's maximum.
+    fn adjust_data_power(&self, tx_config: &mut radio::TxConfig) {
+        let gain = self.board_eirp.antenna_gain;
+        tx_config.adjust_power(self.board_eirp.max_power, gain);
+        if let Some(eirp) = self.configuration.tx_power {
+            tx_config.pw = core::cmp::min(tx_config.pw, (eirp as i8).saturating_sub(gain));
+        }
     }
 
     pub(crate) fn add_uplink<M: SerializableMacCommand>(&mut self, cmd: M) -> Result<()> {
@@ -226,10 +234,7 @@ impl Mac {
                 // No RX windows follow this uplink; the caller re-arms the RXC window.
                 let (mut tx_config, _) =
                     self.region.create_tx_config(rng, self.configuration.data_rate, &Frame::Data);
-                tx_config.adjust_power(
-                    self.configuration.tx_power.unwrap_or(self.board_eirp.max_power),
-                    self.board_eirp.antenna_gain,
-                );
+                self.adjust_data_power(&mut tx_config);
                 (tx_config, fcnt_up)
             },
         )
